@@ -42,6 +42,10 @@ def build_universe(ref, Sid):
         out.append(("q:" + s, lambda s=s: Sid(s + "?bogus=1")))
     for j in ["", "bla", "bla/bla", "hamlet/zz", " ", "a:b:c", "?x=y"]:
         out.append(("str:" + j, lambda j=j: Sid(j)))
+    # an untyped Sid whose string spells the uri of a typed one ('nope:asset:hamlet/a' keeps the string 'asset:hamlet/a'):
+    # equal uris, however they split into type and string
+    for t, s in list(conc.items())[:8]:
+        out.append(("str:nope:" + t + ":" + s, lambda t=t, s=s: Sid("nope:" + t + ":" + s)))
     # names that are a prefix of a sibling continuing with a character that sorts below '/', and their children:
     # ordering by string and ordering by parts differ exactly there
     for t, s in conc.items():
@@ -73,9 +77,12 @@ def pair_violations(la, a, lb, b):
         v.append(("sid-vs-string-equality-wrong", [la, sb, a == sb, sb == a], a.string == sb))
     if (a != b) == eq:
         v.append(("ne-inconsistent-with-eq", [la, lb], "not eq"))
-    if (a < b) != (a.string < b.string) or (a > b) != (a.string > b.string) or (a <= b) != (a.string < b.string or eq):
-        if not (a.string == b.string and not eq):   # total_ordering on equal strings of different type: outside the statement
-            v.append(("ordering-not-by-string", [la, lb], "by string"))
+    # sorting uses '<' only: it must order by string. The derived operators are compared where equality (by uri) and
+    # string order cannot disagree, i.e. for pairs that are neither equal Sids nor equal strings.
+    if (a < b) != (a.string < b.string):
+        v.append(("ordering-not-by-string", [la, lb, "<"], "by string"))
+    elif not eq and a.string != b.string and ((a > b) != (a.string > b.string) or (a <= b) != (a.string <= b.string) or (a >= b) != (a.string >= b.string)):
+        v.append(("ordering-not-by-string", [la, lb, "derived"], "by string"))
     return v
 
 
